@@ -429,6 +429,14 @@ def construct(em, n, ii, rec):
     if rec is None and re.match(r'^(integer_sequence|index_sequence|make_index_sequence)<', norm_name(qt(n) or '')):
         em.resolve(T.parse(qt(n)))
         return '((struct M_empty_tag){ 0 })'
+    if rec is None and len(ii) == 1 and norm_name(qt(n) or '').startswith('pair<'):
+        try:
+            same = norm_name(T.type_str(T.strip_quals(T.strip_ref(T.parse(qt(ii[0])))))) == norm_name(T.type_str(T.strip_quals(T.parse(qt(n)))))
+        except T.TypeParseError:
+            same = False
+        if same:
+            em.lowerings['M-pair(copy/move -> struct copy)'] += 1
+            return em.E(ii[0])
     if rec is None and len(ii) == 1 and _is_mapit(em, n) and _is_mapit(em, ii[0]):
         return em.E(ii[0])
     if rec is None and len(ii) == 1 and _is_vecit(em, n) and _is_vecit(em, ii[0]):
